@@ -137,6 +137,42 @@ class _HighFd:
         return int(str(self.fd))      # a new int object on every call, as a real file object's fileno() gives
 
 
+def run_unget(tables, items, pieces, enc, pipe):
+    """The keypresses `items` reach an Input (bytes naming) through unget_bytes in pieces of `pieces` items each (the
+    way a window hands over what it read past a cursor report), one request after every piece - so a piece arrives
+    while earlier keypresses are still buffered - then requests until nothing comes any more."""
+    import curtsies.input as cinput
+    from curtsies import events as cevents
+    orig = cinput.getpreferredencoding
+    cinput.getpreferredencoding = lambda: pyenc(enc)
+    keys, exc = [], ""
+
+    def take(inp):
+        k = inp.send(0)
+        if k is not None:
+            for x in (k.events if isinstance(k, cevents.PasteEvent) else [k]):
+                keys.append(list(x) if isinstance(x, bytes) else [-1])
+        return k
+    try:
+        inp = cinput.Input(in_stream=pipe, keynames=tables.modes["bytes"])
+        pos = 0
+        k = 0
+        while pos < len(items):
+            n = pieces[k % len(pieces)]
+            k += 1
+            inp.unget_bytes(b"".join(items[pos:pos + n]))
+            pos += n
+            take(inp)
+        for _ in range(len(items) + 5):
+            if take(inp) is None:
+                break
+    except Exception as e:  # noqa
+        exc = type(e).__name__
+    finally:
+        cinput.getpreferredencoding = orig
+    return {"keys": keys, "exc": exc}
+
+
 def run_pipe(tables, items, enc, pipe, highfd=False):
     """End to end: the keypresses `items` (byte strings) are written to the pipe an Input (bytes naming, paste
     detection on) reads from - all of them have arrived before the first request - and requests with timeout 0
